@@ -2110,13 +2110,14 @@ def jobs_combinations(tier):
 
 # ------------------------------------------------------------------------------------------------ C03: reduce_next through an option node
 @guard
-def h_option_reduce(pattern, parents_c, positions):
-    """IndexedOptionArray64::reduce_next at the leaf level: missing values are skipped - the content is handed exactly the valid entries in order,
-    each with the parent (group) of its position; for position-returning reducers (argmin / argmax) shifts[k] = number of missing entries before
-    valid entry k, so that positions can be reported within the group counting the skipped ones; the answer is returned unchanged"""
+def h_option_reduce(pattern, parents_c, positions, cls='IndexedOptionArray64', incoming=False):
+    """reduce_next of an option-type node (IndexedOptionArray64 / ByteMaskedArray) at the leaf level: missing values are skipped - the content is
+    handed exactly the valid entries in order, each with the parent (group) of its position; for position-returning reducers (argmin / argmax)
+    shifts[k] = number of missing entries before valid entry k - plus, when an enclosing level already handed shifts in (incoming), the shift of
+    that entry - so that positions can be reported counting everything that was skipped; the answer is returned unchanged"""
     pattern = tuple(map(bool, pattern))
     n = len(pattern)
-    nc = NodeCtx(['IA', 'RA', 'LOA', 'IDX', 'CNT', 'UTL', 'KD', 'IDS'], [], unwind=max(12, 3 * n + 10))
+    nc = NodeCtx(['IA', 'BMA', 'RA', 'LOA', 'IDX', 'CNT', 'UTL', 'KD', 'IDS'], [], unwind=max(12, 3 * n + 10))
     seen = []
     RED = z3.Function('RED', z3.BitVecSort(64), z3.BitVecSort(64))
 
@@ -2130,7 +2131,11 @@ def h_option_reduce(pattern, parents_c, positions):
         return None
     nc.m.eng.stubs['vf$slot%d' % nc.slot('11reduce_nextERKNS_7ReducerEl')] = s_reduce_next
     nc.m.eng.stubs['vf$slot%d' % nc.slot('12branch_depthEv')] = lambda eng, fr, ins, st, name, argv: [z3.BitVecVal(0, 8), BV(1)]
-    this, idx = build_option64(nc, pattern)
+    if cls == 'IndexedOptionArray64':
+        this, idx = build_option64(nc, pattern)
+    else:
+        this, _mk = build_bytemasked(nc, pattern, True)
+        idx = [BV(i) for i in range(n)]
     # reducer test double: only returns_positions() is consulted
     from .mharness import module_of as _mo
     rslots, rn = nodeh.vtable_slots(_mo('src/libawkward/Reducer.cpp'), 'N7awkward13ReducerArgmaxE')
@@ -2145,9 +2150,16 @@ def h_option_reduce(pattern, parents_c, positions):
     pdata = nc.m.array('parents0', ('i', 64), max(1, n), const=True, arr=parr)
     sdata = nc.m.array('starts0', ('i', 64), G, const=True, arr=z3.K(z3.BitVecSort(64), BV(0)))
     mk = lambda nm, data, ln: (lambda cells: (nc.index_cells(cells, 0, data, BV(0), BV(ln)), nc.m.record(nm, cells, const=True))[1])({})
-    parents, starts, shifts = mk('parents', pdata, n), mk('starts', sdata, G), mk('shifts', NULL, 0)
+    inc = None
+    if incoming:
+        shdata = nc.m.array('shifts0', ('i', 64), max(1, n), const=True)
+        sa = z3.Array('shifts0', z3.BitVecSort(64), z3.BitVecSort(64))
+        inc = [z3.Select(sa, BV(i)) for i in range(n)]
+        for v in inc:
+            nc.m.assume(v >= 0, v <= 1000)
+    parents, starts, shifts = mk('parents', pdata, n), mk('starts', sdata, G), (mk('shifts', shdata, n) if incoming else mk('shifts', NULL, 0))
     nc.m.record('ret', {})
-    cands = [f for mod_ in nc.m.eng.mods for f in mod_.func_src if f.startswith('_ZNK7awkward14IndexedArrayOfIlLb1EE11reduce_nextERKNS_7ReducerEl')]
+    cands = [f for mod_ in nc.m.eng.mods for f in mod_.func_src if f.startswith(('_ZNK7awkward14IndexedArrayOfIlLb1EE11reduce_nextERKNS_7ReducerEl' if cls == 'IndexedOptionArray64' else '_ZNK7awkward15ByteMaskedArray11reduce_nextERKNS_7ReducerEl'))]
     out = nc.m.call(cands[0], [Ptr('ret', 0), this, reducer, BV(1), starts, shifts, parents, BV(G), z3.BitVecVal(0, 1), z3.BitVecVal(0, 1)])
     obls = [('reduce_next does not raise', out.raised), ('the content is asked', z3.Not(z3.Or([ob['pc'] for ob in seen] + [z3.BoolVal(False)])))]
     valid = [i for i, m_ in enumerate(pattern) if not m_]
@@ -2166,7 +2178,8 @@ def h_option_reduce(pattern, parents_c, positions):
                 obls.append(('one shift per valid entry for a position-returning reducer', g))
             else:
                 for k, i in enumerate(valid):
-                    obls.append(('shift of valid entry %d counts the missing entries before it' % k, z3.And(g, ob['shifts'][k] != sum(1 for j in range(i) if pattern[j]))))
+                    want_shift = BV(sum(1 for j in range(i) if pattern[j])) + (inc[i] if inc is not None else 0)
+                    obls.append(('shift of valid entry %d counts the missing entries before it%s' % (k, ' on top of the shift that came in with it' if inc is not None else ''), z3.And(g, ob['shifts'][k] != want_shift)))
         else:
             obls.append(('no shifts for a value-returning reducer', z3.And(g, z3.BoolVal(len(ob['shifts']) != 0))))
         obls.append(('outlength and negaxis are passed on', z3.And(g, z3.Or(ob['outlength'] != G, ob['negaxis'] != 1))))
@@ -2179,8 +2192,8 @@ def h_option_reduce(pattern, parents_c, positions):
     def replay(model, ent):
         iv = [model.eval(x, model_completion=True).as_signed_long() for x in idx]
         lc = max([model.eval(nc.lencontent, model_completion=True).as_signed_long(), 1] + [v + 1 for v in iv])
-        if lc > 60 or parents_c != sorted(parents_c):
-            return False, 'not replayable', {}
+        if lc > 60 or parents_c != sorted(parents_c) or incoming or cls != 'IndexedOptionArray64':
+            return False, 'not replayable through this driver (incoming shifts / masked classes have their own replay)', {}
         # groups as lists: ListOffsetArray64 over the option node, reduce along axis 1
         offs_, acc = [0], 0
         for gi in range(G):
@@ -2200,15 +2213,32 @@ def h_option_reduce(pattern, parents_c, positions):
         else:
             exp = [sum(x for x in grp if x is not None) for grp in groups]
         return akrun_check(prog, exp, '%s(axis=1) over groups %s' % ('argmax' if positions else 'sum', groups))
-    return mdischarge(nc.m, 'IndexedOptionArray64::reduce_next pattern=%s parents=%s %s' % (''.join('N' if p else 'v' for p in pattern), parents_c, 'positions' if positions else 'values'), obls, [],
-                      replay=replay, prefer=[nc.lencontent <= 8], extra=dict(bounds='%d entries, missing pattern and parents concrete (case split), index values symbolic' % n))
+    def replay_masked(model, ent):
+        # a fixed witness: ragged rows [[4], [1, x, 2], [6, 3]] (x = 9, or None when the pattern has a missing entry) reduced across the rows:
+        # the enclosing list hands shifts in (rows too short for a column), the option node must pass them on
+        miss = any(pattern)
+        node = ('bytemask %s 1 ' % fullnative.ints([1, 1, 0 if miss else 1, 1, 1, 1])) if cls == 'ByteMaskedArray' else ('option64 %s ' % fullnative.ints([0, 1, -1 if miss else 2, 3, 4, 5]))
+        prog = 'i64 6 4 1 9 2 6 3 ' + node + 'listoffset64 4 0 1 4 6 reduce %s 0 0 0' % ('argmax' if positions else 'sum')
+        if positions:
+            exp = [2, 2, 1] if miss else [2, 1, 1]
+        else:
+            exp = [11, 3, 2] if miss else [11, 12, 2]
+        return akrun_check(prog, exp, '%s(axis=0) of [[4], [1, %s, 2], [6, 3]] with a %s leaf' % ('argmax' if positions else 'sum', 'None' if miss else '9', cls))
+    return mdischarge(nc.m, '%s::reduce_next pattern=%s parents=%s %s%s' % (cls, ''.join('N' if p else 'v' for p in pattern), parents_c, 'positions' if positions else 'values', ' with incoming shifts' if incoming else ''), obls, [],
+                      replay=(replay if not incoming and cls == 'IndexedOptionArray64' else replay_masked), prefer=[nc.lencontent <= 8], extra=dict(bounds='%d entries, missing pattern and parents concrete (case split), index values symbolic' % n))
 
 
 def jobs_option_reduce(tier):
     cases = [((0, 1, 0), [0, 0, 0]), ((1, 0, 0, 1), [0, 0, 1, 1]), ((0, 0), [0, 1]), ((1, 1), [0, 0])]
     if tier != 'quick':
         cases += [((0, 1, 0, 1, 0), [0, 0, 1, 1, 1]), ((1, 0, 1), [0, 1, 1]), ((0, 0, 0), [0, 0, 0])]
-    return [(h_option_reduce, (p, par, pos), 1800) for p, par in cases for pos in (False, True)]
+    js = [(h_option_reduce, (p, par, pos), 1800) for p, par in cases for pos in (False, True)]
+    for p, par in cases[:3] + [((0, 0, 0), [0, 0, 1])]:
+        for pos in (False, True):
+            js.append((h_option_reduce, (p, par, pos, 'ByteMaskedArray'), 1800))
+            js.append((h_option_reduce, (p, par, pos, 'ByteMaskedArray', True), 1800))
+            js.append((h_option_reduce, (p, par, pos, 'IndexedOptionArray64', True), 1800))
+    return js
 
 
 # ------------------------------------------------------------------------------------------------ C08 / C12: NumpyArray::mergemany (rectilinear concatenation)
